@@ -33,9 +33,13 @@ None == T("none", 0)
 \* DOCUMENT ORDER of the pre-existing identifiers (the order of the p:sldId / Relationship / shape elements, of the parts in the
 \* package walk): the allocators are functions of the SET, so the result must not depend on it.  "asc" lays the identifiers down in
 \* TLC's set order, "desc" in the reverse (the last element then holds a small number whose successor is taken).
+\* "nested" (shape ids): the shapes that carry the pre-existing identifiers are not children of the shape tree but members of a group
+\* in it, the last of them inside an mc:AlternateContent fallback: identifiers are unique in the SLIDE, wherever the element sits.
 Ordered(S, ord) == IF ord = "desc" THEN Reverse(SetToSeq(S)) ELSE SetToSeq(S)
-Init == \E kind \in KINDS : \E S \in (SUBSET Universe(kind)) \cup BigSets(kind) : \E ord \in {"asc", "desc"} :
+Orders(kind) == IF kind = "shape" THEN {"asc", "desc", "nested"} ELSE {"asc", "desc"}
+Init == \E kind \in KINDS : \E S \in (SUBSET Universe(kind)) \cup BigSets(kind) : \E ord \in Orders(kind) :
           /\ (ord = "desc") => (Cardinality(S) >= 2 /\ S \notin BigSets(kind))
+          /\ (ord = "nested") => (S # {} /\ S \notin BigSets(kind))
           /\ st = [kind |-> kind, used |-> S \cup Fixed(kind), turbo |-> 0 - 1, nrel |-> 0]
           /\ hist = <<[op |-> "init", kind |-> kind, ord |-> ord, used |-> Ordered(S \cup Fixed(kind), ord)]>>
 More == Len(hist) <= DEPTH
@@ -52,6 +56,9 @@ DoAlloc(op) ==
                                             failing |-> SetToSeq(f), hist |-> hist])>>)
 Alloc    == DoAlloc("alloc")
 AllocGap == st.kind = "shape" /\ DoAlloc("allocGap")
+\* a shape added INSIDE a group of the slide (the group's collection has no turbo cache of its own; with the slide's cache on, the two
+\* allocators are the recorded turbo finding's business, so the action is taken with the cache off)
+AllocIn  == st.kind = "shape" /\ st.turbo < 0 /\ DoAlloc("allocIn")
 Release  == \E u \in st.used \ Fixed(st.kind) :
               /\ More /\ st.nrel < MAXREL
               /\ st' = [st EXCEPT !.used = @ \ {u}, !.nrel = @ + 1]
@@ -59,7 +66,7 @@ Release  == \E u \in st.used \ Fixed(st.kind) :
 TurboOn  == /\ More /\ st.kind = "shape" /\ st.turbo < 0
             /\ st' = [st EXCEPT !.turbo = MaxOr(Digits(st.used), 0)]          \* turbo_add_enabled = True caches max_shape_id
             /\ hist' = Append(hist, Act("turbo", None, None))
-Next == Alloc \/ AllocGap \/ Release \/ TurboOn
+Next == Alloc \/ AllocGap \/ AllocIn \/ Release \/ TurboOn
 Spec == Init /\ [][Next]_<<st, hist>>
 
 \* every maximal history is printed once (state = <st, hist>: a history is a state)
